@@ -333,6 +333,21 @@ def rng_job(job):
                 v = run_fn('btok.CVCVal', dict(cert=bytes(bad), certa=root.cert, date=None)); calls += 1
                 if v['ret'] == 0:
                     out.append(('btok.CVCIss:tamper', 'altered certificate accepted'))
+        if klr == 32 and kln == 32:
+            # bpkiCSRRewrap draws the optional signature data from the RNG when it is valid (bpki.c): the re-issued request must still verify
+            # under the new key and refuse an altered octet
+            d2 = cat_tok.privkey(32, 4)
+            for csr in (T.CSR_BEE2EVP, T.csr_make(cat_tok.NAME_DER, cat_tok.ATTRS_DER, cat_tok.privkey(32, 3))):
+                r = run_fn('bpkiCSRRewrap', dict(csr=csr, privkey=d2)); calls += 1
+                if r['ret']:
+                    out.append(('bpkiCSRRewrap', 'bpkiCSRRewrap failed (%#x) while the RNG is active' % r['ret'])); continue
+                v = run_fn('bpkiCSRUnwrap', dict(csr=r['csr'])); calls += 1
+                if v['ret'] or v.get('pubkey') != T.pubkey_of(d2):
+                    out.append(('bpkiCSRRewrap:verify', 'the request re-issued by bpkiCSRRewrap while the RNG is active is refused (%#x) or carries another public key' % v['ret']))
+                bad = bytearray(r['csr']); bad[len(bad) // 2] ^= 1
+                v = run_fn('bpkiCSRUnwrap', dict(csr=bytes(bad))); calls += 1
+                if v['ret'] == 0:
+                    out.append(('bpkiCSRRewrap:tamper', 'altered request accepted'))
     finally:
         L.call('rngClose'); L.call('vh_es_remove')
     if L.boolean('rngIsValid'):
@@ -828,11 +843,11 @@ def pbkdf2_gate(item):
 def run(tier):
     chk = vf.Check(PROP, tier, deadline_s=600 if tier == 'quick' else 2400)
     if common.lib(CFG).boolean('rngIsValid'):
-        chk.violation('harness:rng', {'cfg': CFG, 'kind': 'none'}, 'the process-wide RNG is valid: signatures would not be reproducible')
+        chk.harness_error('the process-wide RNG is valid: signatures would not be reproducible')
     if tier == 'thorough':
         ok = vf.pmap(pbkdf2_gate, list(cat_tok.PBKDF2_10000.items()), case_timeout=600)
         if ok != [True] * len(ok):
-            chk.violation('harness:pbkdf2-table', {'cfg': CFG, 'kind': 'none'}, 'the recorded reference PBKDF2 values disagree with ref/belt.py: %s' % ok)
+            chk.harness_error('the recorded reference PBKDF2 values disagree with ref/belt.py: %s' % ok)
     for phase in (corpus, cert_tamper, containers, keylen_sweep, sm_search, chains, rng_active):
         if chk.expired():
             chk.cap('deadline before ' + phase.__name__); continue
